@@ -206,10 +206,64 @@ def run_all(run, cases, binary, jbin):
         wl.rmtree(tmp)
 
 
+def spawn_failure_family(run, binary):
+    """A thread that cannot be started (pthread_create fails with EAGAIN: the process is at its thread or memory limit) at any of the
+    thread creations of a local sync - the two doer threads, the walker threads of either side, the progress thread.  The property's
+    clause: a listing is never silently shorter than the folder - a run that reports success must have seen everything.  Oracle: exit 0
+    => the destination mirrors the source; any failure status is fine (the pinned tree panics with 'Failed to spawn thread', which is a
+    resource failure, not an input); a hang is not.  The fault is delivered by a 25-line LD_PRELOAD shim (harness/shim/failspawn.c)."""
+    import subprocess, tempfile, shutil
+    cc = shutil.which('gcc') or shutil.which('cc') or shutil.which('clang')
+    if cc is None:
+        run.count('spawn-failure:no-C-compiler(skipped)')
+        return
+    src_c = os.path.join(vlib.VERIF, 'harness', 'shim', 'failspawn.c')
+    so = os.path.join(vlib.BIN, 'failspawn.so')
+    os.makedirs(vlib.BIN, exist_ok=True)
+    if not os.path.exists(so) or os.path.getmtime(so) < os.path.getmtime(src_c):
+        p = subprocess.run([cc, '-shared', '-fPIC', '-O1', '-o', so, src_c, '-ldl', '-lpthread'], stdout=subprocess.PIPE, stderr=subprocess.STDOUT, text=True)
+        if p.returncode != 0:
+            run.count('spawn-failure:shim-build-failed(skipped)')
+            return
+    import e2e
+    T = 1_700_000_000_000_000_000
+    base = tempfile.mkdtemp(prefix='c17sp_', dir=vlib.CACHE)
+    try:
+        for n in range(0, 10):
+            root = os.path.join(base, 'n%d' % n)
+            src = {'': {'k': 'dir'}, 'a.txt': {'k': 'file', 'data': b'a', 'mtime_ns': T}, 'sub': {'k': 'dir'}, 'sub/b.txt': {'k': 'file', 'data': b'bb', 'mtime_ns': T + 1},
+                   'sub/deep': {'k': 'dir'}, 'sub/deep/c': {'k': 'file', 'data': b'c', 'mtime_ns': T + 2}}
+            dest = {'': {'k': 'dir'}, 'a.txt': {'k': 'file', 'data': b'a', 'mtime_ns': T}, 'stale': {'k': 'file', 'data': b's', 'mtime_ns': T - 5},
+                    'sub': {'k': 'dir'}, 'sub/b.txt': {'k': 'file', 'data': b'bb', 'mtime_ns': T + 1}}
+            os.makedirs(root)
+            e2e.build_tree(os.path.join(root, 's'), src)
+            e2e.build_tree(os.path.join(root, 'd'), dest)
+            log = os.path.join(root, 'spawn.log')
+            r = e2e.run_cli(binary, [os.path.join(root, 's') + '/', os.path.join(root, 'd') + '/'], timeout=40,
+                            env={'LD_PRELOAD': so, 'VERIF_SHIM_SPAWN_FAIL_NTH': str(n), 'VERIF_SHIM_SPAWN_LOG': log})
+            fired = os.path.exists(log)
+            run.count('spawn-failure:%s' % ('fault-delivered' if fired else 'fewer-threads-than-n'))
+            run.case(('spawn-failure', n), fired, sample={'nth_thread': n, 'fault_delivered': fired, 'exit': r['exit']} if fired else None)
+            run.traces_validated += 1
+            s1, d1 = e2e.snapshot(os.path.join(root, 's')), e2e.snapshot(os.path.join(root, 'd'))
+            bad = None
+            if r['timed_out']:
+                bad = 'the run did not finish (hang) after thread creation %d failed' % n
+            elif r['exit'] == 0 and d1 != s1:
+                bad = ('thread creation %d failed, the run reported success (exit 0) but the destination is not a mirror: a listing was silently short '
+                       '(missing %s, extra %s)' % (n, sorted(set(s1) - set(d1))[:4], sorted(set(d1) - set(s1))[:4]))
+            if bad:
+                run.fail('C17 (thread cannot be started): ' + bad, {'kind': 'spawn-failure', 'nth': n, 'exit': r['exit'], 'stderr': r['stderr'][-400:]})
+            shutil.rmtree(root, ignore_errors=True)
+    finally:
+        shutil.rmtree(base, ignore_errors=True)
+
+
 def check(run):
     binary, jbin = setup(run)
     cases = corpus_cases() + gen_cases(run, run.tier)
     run_all(run, cases, binary, jbin)
+    spawn_failure_family(run, binary)
     return run.finish(search=None)     # every case already ran the property oracle on the implementation
 
 
